@@ -104,27 +104,47 @@ def run_cli(lang, flags, lines, tagger):
         dlang.set_global_language_to('en')
 
 
-def cli_case(rng, lang, fmt=None, many=False):
+def cli_case(rng, lang, fmt=None, many=False, focus=None):
     """a document over the real grammar of `lang`, beam / n-best / length options, the flags for them"""
     m = rng.randint(21, 24) if many else rng.randint(1, 3)
     base, sents, cats, root_cats, _bf, _uf = glue_checks.full_stack_problem(rng, lang, m)
     opts = dict(nbest=rng.choice([1, 1, 2, 3]), pruning=rng.choice([1, 2, 3, 50, 0, len(cats)]), penalty=rng.choice([0, 6, 13]),
                 use_beta=rng.random() < 0.5, beta=rng.choice([0.5, 0.1, 0.001, 1.0, 2.0]), max_length=rng.choice([250, 250, 3]),
                 procs=rng.randint(1, 3), max_step=3000)
-    flags = ['--nbest', str(opts['nbest']), '--pruning-size', str(opts['pruning']), '--unary-penalty', repr(opts['penalty'] / S.SCALE),
-             '--beta', repr(opts['beta']), '--max-length', str(opts['max_length']), '--max-step', str(opts['max_step']),
-             '--num-processes', str(opts['procs']), '--root-cats', '|'.join(str(c) for c in root_cats), '--format', fmt or 'auto']
+    if focus == 'nbest':
+        # more parses asked for than tags admitted per word: the n-best list is limited by the derivations only
+        opts.update(nbest=rng.choice([3, 4, 5, 8]), pruning=rng.choice([2, 2, 3]), use_beta=False, max_length=250)
+    groups = [['--nbest', str(opts['nbest'])], ['--pruning-size', str(opts['pruning'])], ['--unary-penalty', repr(opts['penalty'] / S.SCALE)],
+              ['--beta', repr(opts['beta'])], ['--max-length', str(opts['max_length'])], ['--max-step', str(opts['max_step'])],
+              ['--num-processes', str(opts['procs'])], ['--root-cats', '|'.join(str(c) for c in root_cats)], ['--format', fmt or 'auto']]
     if not opts['use_beta']:
-        flags.append('--disable-beta')
+        groups.append(['--disable-beta'])
     if lang == 'ja':
-        flags.append('--pre-tokenized')
+        groups.append(['--pre-tokenized'])
+    rng.shuffle(groups)         # options may come in any order
+    flags = [x for g in groups for x in g]
     for p, _ in sents:
         p.nbest, p.pruning, p.penalty, p.use_beta, p.beta, p.max_step = (opts['nbest'], opts['pruning'], opts['penalty'],
                                                                             opts['use_beta'], opts['beta'], opts['max_step'])
+    if len(sents) >= 2 and rng.random() < 0.35:
+        # the same sentence twice, scored differently (a tagger sees different contexts): every occurrence is
+        # parsed from its own matrices
+        src, _ = sents[0]
+        dup = S.Problem.from_json(src.to_json())
+        dup.tags = [rng.sample(row, len(row)) for row in src.tags]
+        dup.deps = [rng.sample(row, len(row)) for row in src.deps]
+        sents[1] = (dup, sents[0][1])
     piped = lang == 'en' and rng.random() < 0.3
+    odd = ['-LRB-', '-RRB-', '(', ')', '-LSB-', '[', 'a<b', '&', "it's", 'naïve', '彼', 'ID=4711', '2,000', '-', '--']
     lines, doc = [], []
+    same_words = {}
     for si, (p, toks) in enumerate(sents):
-        words = [f'w{si}x{i}' for i in range(p.n)]
+        key = id(toks)
+        if key in same_words:
+            words = same_words[key]
+        else:
+            words = [(rng.choice(odd) if rng.random() < 0.15 else f'w{si}x{i}') for i in range(p.n)]
+            same_words[key] = words
         if piped:
             lines.append(' '.join(f'{w}|NN|O' for w in words))
             doc.append([Token.of_piped(f'{w}|NN|O') for w in words])
@@ -187,6 +207,14 @@ def model_line(case):
     return ' '.join(parts)
 
 
+def esc(word):
+    """independent statement of the escaped spelling of the AUTO / PTB formats"""
+    table = {'(': '-LRB-', ')': '-RRB-', '{': '-LCB-', '}': '-RCB-', '[': '-LSB-', ']': '-RSB-'}
+    if word in table:
+        return table[word]
+    return word.replace('>', '-RAB-').replace('<', '-LAB-')
+
+
 def oracle_auto(case, text):
     """None or a reason, from the printed AUTO records alone"""
     o = case['opts']
@@ -237,8 +265,9 @@ def oracle_auto(case, text):
                 continue
             if len(leaves) != p.n:
                 return f'sentence {si + 1}: {len(leaves)} leaves for {p.n} words'
-            if [l[2] for l in leaves] != [t['word'] for t in case['doc'][si]]:
-                return f'sentence {si + 1}: the leaves carry the words {[l[2] for l in leaves]}, the input line has {[t["word"] for t in case["doc"][si]]}'
+            if [l[2] for l in leaves] != [esc(t['word']) for t in case['doc'][si]]:
+                return (f'sentence {si + 1}: the leaves carry the words {[l[2] for l in leaves]}, the input line has '
+                        f'{[t["word"] for t in case["doc"][si]]} (escaped spelling expected)')
             if tree[1] not in [str(c) for c in case['roots']]:
                 return f'sentence {si + 1}: root category {tree[1]} is not one of --root-cats'
             # C09: the printed score is the model score of the printed tree (heads from the printed head flags)
@@ -273,7 +302,7 @@ def oracle_auto(case, text):
     return None
 
 
-def cli_suite(ctx, count, formats=None):
+def cli_suite(ctx, count, formats=None, focus=None):
     rng = ctx.rng
     if not glue_checks.ensure_native(ctx):
         return
@@ -284,7 +313,7 @@ def cli_suite(ctx, count, formats=None):
         import render_common
         offered = [f for f in (formats or []) if f in render_common.offered(lang)]
         fmt = rng.choice(offered) if offered and k % 2 else 'auto'
-        case = cli_case(rng, lang, fmt, many=(k % 10 == 7))
+        case = cli_case(rng, lang, fmt, many=(k % 10 == 7), focus=(focus if k % 2 == 0 else None))
         desc = dict(lang=lang, flags=case['flags'], lines=case['lines'][:4], categories=[str(c) for c in case['cats']],
                     sentences=[p.to_json() for p, _ in case['sents'][:3]])
         tagger = FakeTagger(case['scores'], [str(c) for c in case['cats']])
@@ -313,6 +342,42 @@ def cli_suite(ctx, count, formats=None):
                 why = f'the printed AUTO text cannot be decoded: {e}'
             if why:
                 ctx.fail(why, desc, fingerprint=['cli-oracle', why.split(':')[-1][:30]])
+        if fmt == 'deriv':
+            # the deriv format shows the words as they are: they must be the words of the input lines
+            try:
+                why = None
+                for n, body in D.split_records(text):
+                    leaves = []
+
+                    def walk(t):
+                        if t[0] == 'L':
+                            leaves.append(t[2])
+                        else:
+                            for k in t[-1]:
+                                walk(k)
+                    walk(D.read_deriv(body))
+                    want_w = [t['word'] for t in case['doc'][n - 1]]
+                    if leaves != want_w and leaves != ['FAILED']:
+                        why = f'sentence {n}: the printed derivation has the words {leaves}, the input line has {want_w}'
+                        break
+                if why:
+                    ctx.fail(why, desc, fingerprint=['cli-oracle', 'deriv-words'])
+            except (D.DecodeError, IndexError):
+                pass
+        if fmt in ('auto', 'auto_extended', 'ptb', 'deriv', 'ja') and text != want:
+            # C10 (count): depccg.parsing.run with the same --nbest finds that many derivations
+            def counts(t):
+                c = {}
+                for n, _ in D.split_records(t):
+                    c[n] = c.get(n, 0) + 1
+                return c
+            ca, cb = counts(text), counts(want)
+            for n in sorted(cb):
+                if ca.get(n, 0) < cb[n] <= max(case['opts']['nbest'], 1):
+                    ctx.fail(f'sentence {n}: {ca.get(n, 0)} parses are printed for --nbest {case["opts"]["nbest"]}, but the sentence has at least '
+                             f'{cb[n]} derivations (depccg.parsing.run returns them for the same options)', desc,
+                             fingerprint=['cli-oracle', 'nbest-count'])
+                    break
         if text != want:
             i = 0
             while i < min(len(text), len(want)) and text[i] == want[i]:
@@ -335,3 +400,143 @@ def cli_suite(ctx, count, formats=None):
             if m != impl_out:
                 ctx.disagree(op, desc, m, impl_out, line=line[:3000])
         ctx.extra['cli_model_compared'] = ctx.extra.get('cli_model_compared', 0) + len(model_cases)
+
+
+# ---- `read_params` (depccg/allennlp/utils.py): the rule functions and the dictionary the program uses --------------
+
+class DictParams(object):
+    """`Params` over an in-memory config"""
+    configs = {}
+
+    def __init__(self, d):
+        self.d = d
+
+    @classmethod
+    def from_file(cls, path):
+        import copy
+        return cls(copy.deepcopy(cls.configs[str(path)]))
+
+    def pop(self, key):
+        return self.d.pop(key)
+
+
+def call_read_params(lang, config, **kw):
+    """the real read_params on an in-memory config -> (binary, unary, category_dict, roots)"""
+    native.setup()
+    import depccg.allennlp.utils as U
+    from depccg import lang as dlang
+    old = U.Params
+    U.Params = DictParams
+    DictParams.configs['mem'] = config
+    dlang.set_global_language_to(lang)
+    try:
+        return U.read_params('mem', **kw)
+    finally:
+        U.Params = old
+        dlang.set_global_language_to('en')
+
+
+def synthetic_config(rng, lang):
+    """a small config in which strings recur between its parts (a seen-rule category spelled like a unary
+    target or a dictionary entry), as they do in hand-written configs"""
+    v = tables.VARIANTS[lang]
+    unary = [list(p) for p in tables.load(v['unary'])]
+    seen_all = [list(p) for p in tables.load(v['seen'])]
+    seen = rng.sample(seen_all, min(len(seen_all), 60))
+    targets = list(tables.load(v['targets']))
+    strings = [s for p in unary for s in p]
+    if lang == 'en':
+        seen += [['S[X]/(S[X]\\NP)', 'S[dcl]\\NP'], ['NP[nb]/N', 'N'], ['(S[X]\\NP)\\(S[X]\\NP)', 'S[dcl]\\NP'], ['NP', 'S[X]\\NP']]
+        cat_dict = {'the': ['NP[nb]/N', 'NP[nb]/N'], 'a': ['NP[nb]/N'], 'runs': ['S[dcl]\\NP'], 'x': [rng.choice(targets) for _ in range(3)]}
+    else:
+        cat_dict = {}
+    # pairs made of strings that already occur elsewhere in the file
+    for _ in range(6):
+        seen.append([rng.choice(strings), rng.choice(strings)])
+    rng.shuffle(seen)
+    return {'unary_rules': unary, 'seen_rules': seen, 'cat_dict': cat_dict, 'targets': targets}
+
+
+def read_params_suite(ctx, count, want_dict=False):
+    """C14 / C17 for what the program actually uses: the functions and the dictionary handed out by
+    read_params must be the configured ones — a pair passes the seen gate iff its [X]/[nb]-erased form
+    is a configured pair (erased the same way), the unary function returns the configured targets, the
+    dictionary restricts the same words every time it is used"""
+    from depccg.grammar import en, ja
+    rng = ctx.rng
+    n_pairs = 0
+    for k in range(count):
+        lang = 'ja' if k % 3 == 2 else 'en'
+        mod = en if lang == 'en' else ja
+        config = synthetic_config(rng, lang)
+        desc = {'lang': lang, 'seen_rules': config['seen_rules'][:80], 'cat_dict': config['cat_dict'], 'unary_rules': len(config['unary_rules'])}
+        try:
+            binary, unary, cat_dict, _ = call_read_params(lang, config)
+        except Exception as e:
+            ctx.fail(f'read_params raised {type(e).__name__}: {e}', desc, fingerprint=['read-params-raise'])
+            continue
+        ctx.evaluations += 1
+        own = {(Category.parse(a).clear_features('X', 'nb'), Category.parse(b).clear_features('X', 'nb')) for a, b in config['seen_rules']}
+        probes = [(Category.parse(a), Category.parse(b)) for a, b in config['seen_rules']]
+        probes += [(x.clear_features('X', 'nb'), y.clear_features('X', 'nb')) for x, y in probes[:40]]
+        bad = None
+        for x, y in probes:
+            n_pairs += 1
+            got = binary(x, y)
+            free = mod.apply_binary_rules(x, y)
+            key = (x.clear_features('X', 'nb'), y.clear_features('X', 'nb')) if lang == 'en' else (x, y)
+            inside = key in own if lang == 'en' else (x, y) in {(Category.parse(a), Category.parse(b)) for a, b in config['seen_rules']} or key in own
+            if lang == 'en' and inside and got != free:
+                bad = (f'the pair ({x}, {y}) is configured as a seen rule (after erasing [X] and [nb]) but the rule function of the '
+                       f'program returns {[str(r.cat) for r in got]} instead of the unrestricted result {[str(r.cat) for r in free]}')
+                break
+            if got != free and got != []:
+                bad = f'the rule function of the program returns for ({x}, {y}) neither the unrestricted result nor nothing'
+                break
+        if bad:
+            ctx.fail(bad, desc, fingerprint=['read-params-seen', lang])
+            continue
+        table = {}
+        for a, b in config['unary_rules']:
+            table.setdefault(Category.parse(a), []).append(Category.parse(b))
+        for x, targets in list(table.items())[:30]:
+            got = [r.cat for r in unary(x)]
+            if got != targets:
+                ctx.fail(f'the unary function of the program returns {[str(c) for c in got]} for {x}, configured: {[str(c) for c in targets]}',
+                         desc, fingerprint=['read-params-unary', lang])
+                break
+        if want_dict and lang == 'en' and cat_dict is not None:
+            # the dictionary object is used for every batch of a run
+            cats = [Category.parse(s) for s in config['targets']]
+            words = [w for w in config['cat_dict']][:3] + ['zzz']
+            import numpy
+            from depccg.types import Token, ScoringResult
+            parsing = native.setup()['parsing']
+            for batch in range(3):
+                doc = [[Token.of_word(w) for w in words]]
+                tag = numpy.zeros((len(words), len(cats)), dtype=numpy.float32)
+                dep = numpy.zeros((len(words), len(words) + 1), dtype=numpy.float32)
+                try:
+                    _, (res,) = parsing.apply_category_filters(doc, [ScoringResult(tag, dep)], cats, cat_dict)
+                except Exception as e:
+                    ctx.fail(f'apply_category_filters raised {type(e).__name__} with the dictionary of read_params (batch {batch + 1})', desc,
+                             fingerprint=['read-params-dict', 'raise'])
+                    break
+                ctx.evaluations += 1
+                why = None
+                for i, w in enumerate(words):
+                    listed = {Category.parse(s) for s in config['cat_dict'].get(w, [])}
+                    for j, c in enumerate(cats):
+                        keep = (w not in config['cat_dict']) or (c in listed)
+                        if (res.tag_scores[i, j] == 0.0) != keep:
+                            why = (f'batch {batch + 1}: word {w!r}, category {c}: score {res.tag_scores[i, j]}, the dictionary '
+                                   f'{"lists" if c in listed else "does not list"} it')
+                            break
+                    if why:
+                        break
+                if why:
+                    ctx.fail('the dictionary handed out by read_params does not restrict exactly the listed words: ' + why, desc,
+                             fingerprint=['read-params-dict', f'batch{batch + 1}'])
+                    break
+        ctx.nontrivial_add(('read_params', k))
+    ctx.extra['read_params_pairs'] = n_pairs
